@@ -337,4 +337,55 @@ def fillPanel (spec : PadSpec) (tw : Nat) (line2 : List Item) : List Char :=
 def padPanel (spec : PadSpec) (line : List Item) : Option (List Char) :=
   (fitPanel spec (withMarker spec line)).map (fillPanel spec (width (withMarker spec line)))
 
+/-! ### A rendered row
+
+How `Painter::paint_lines` (unified) and `paint_minus_and_plus_lines_side_by_side` /
+`paint_zero_lines_side_by_side` assemble one output row from the pieces above. -/
+
+/-- A text handed to `ansi_term`: plain, or an OSC 8 hyperlink around plain text (line-number
+fields and file paths when `--hyperlinks` is on). -/
+inductive Piece where
+  | plain (t : List Char)
+  | linked (url t : List Char)
+  deriving DecidableEq, Repr
+
+def Piece.chars : Piece → List Char
+  | .plain t => t
+  | .linked u t => link u t
+
+/-- `Painter::paint_line`: `ANSIStrings` over the line-number fields, the re-inserted prefix and
+the superimposed sections. -/
+def paintLine (xs : List (Sgr.Style × Piece)) : List Char :=
+  Sgr.renderStrings (xs.map fun x => (x.1, x.2.chars))
+
+/-- How `paint_lines` finishes a unified line. -/
+inductive UFill where
+  | none
+  | ansi (st : Sgr.Style)
+  | spaces (st : Sgr.Style) (n : Nat)
+  | emptyMark (st : Sgr.Style) (marker : Option (List Char))
+  deriving Repr
+
+inductive Row where
+  | unified (xs : List (Sgr.Style × Piece)) (fill : UFill)
+  /-- each panel: the painted strings, their partition into items (as the ANSI iterator yields
+  it), and the padding parameters -/
+  | sideBySide (left right : List (Sgr.Style × Piece)) (itemsL itemsR : List Item)
+      (specL specR : PadSpec)
+
+/-- The characters of the row (without the final newline); `none` = a `debug_assert!` fired
+in truncation. -/
+def Row.render : Row → Option (List Char)
+  | .unified xs fill =>
+    some (match fill with
+      | .none => paintLine xs
+      | .ansi st => rightFill (paintLine xs) st
+      | .spaces st n => spacesFill (paintLine xs) st n
+      | .emptyMark st m => markEmpty (paintLine xs) st m)
+  | .sideBySide _ _ itemsL itemsR specL specR =>
+    match padPanel specL itemsL, padPanel specR itemsR with
+    | some a, some b => some (a ++ b)
+    | _, _ => none
+
 end Line
+
